@@ -21,6 +21,81 @@ impl HostFilter for RejectAll {
     }
 }
 
+/// Rejects the peers whose rack is "r9" (so that a rack change flips the verdict).
+struct RejectRack9;
+impl HostFilter for RejectRack9 {
+    fn accept(&self, peer: &Peer) -> bool {
+        peer.rack.as_deref() != Some("r9")
+    }
+}
+
+/// One node of a topology handed to the worker. `dc` / `rack`: 0 = unknown, else "dc<d>" / "r<r>".
+#[derive(Clone, Copy, Debug, PartialEq, Eq, PartialOrd, Ord)]
+pub struct PeerSpec {
+    pub host: u64,
+    pub addr: SocketAddr,
+    pub dc: u8,
+    pub rack: u8,
+}
+
+/// A node as ONE view of the published `ClusterState` reports it; `obj` = address of the `Node`
+/// object (the views must name the same object per host id).
+#[derive(Clone, Debug, PartialEq, Eq, PartialOrd, Ord)]
+pub struct NodeView {
+    pub host: u64,
+    pub addr: SocketAddr,
+    pub dc: u8,
+    pub rack: u8,
+    pub enabled: bool,
+    pub obj: usize,
+}
+
+/// Every public view of the published `ClusterState` onto its topology, each sorted by host id.
+#[derive(Clone, Debug, PartialEq, Eq)]
+pub struct PublishedViews {
+    /// `get_nodes_info()`
+    pub nodes_info: Vec<NodeView>,
+    /// `known_nodes` (what tablets / the next topology calculation resolve host ids with)
+    pub known_nodes: Vec<NodeView>,
+    /// `get_node_by_host_id(h)` for every host id of `known_nodes` and of `nodes_info`
+    pub by_host_id: Vec<NodeView>,
+    /// the distinct nodes of `replica_locator().ring()`
+    pub ring: Vec<NodeView>,
+    /// number of tables with tablet information (`locator.tablets`)
+    pub tablet_tables: usize,
+}
+
+fn peers_of(specs: &[PeerSpec]) -> Vec<Peer> {
+    let name = |prefix: &str, n: u8| (n != 0).then(|| format!("{prefix}{n}"));
+    specs
+        .iter()
+        .map(|p| Peer {
+            host_id: Uuid::from_u128(p.host as u128),
+            address: NodeAddr::Translatable(p.addr),
+            tokens: vec![Token::new(p.host as i64)],
+            datacenter: name("dc", p.dc),
+            rack: name("r", p.rack),
+        })
+        .collect()
+}
+
+fn view_of(node: &Arc<Node>) -> NodeView {
+    let num = |s: &Option<String>, prefix: &str| {
+        s.as_deref()
+            .and_then(|s| s.strip_prefix(prefix))
+            .and_then(|n| n.parse::<u8>().ok())
+            .unwrap_or(0)
+    };
+    NodeView {
+        host: node.host_id.as_u128() as u64,
+        addr: node.address.into_inner(),
+        dc: num(&node.datacenter, "dc"),
+        rack: num(&node.rack, "r"),
+        enabled: node.is_enabled(),
+        obj: Arc::as_ptr(node) as usize,
+    }
+}
+
 /// A one-node topology identified by `tag` (host id = tag).
 fn peers_for(tag: u64) -> Vec<Peer> {
     vec![Peer {
@@ -73,6 +148,25 @@ impl WorkerRig {
     }
 
     async fn spawn_with(initial_tag: u64, with_subscriber: bool, accept_all: bool) -> WorkerRig {
+        Self::spawn_general(
+            peers_for(initial_tag),
+            with_subscriber,
+            if accept_all { 1 } else { 0 },
+        )
+        .await
+    }
+
+    /// Like `spawn`, with an explicit initial topology and host filter: `filter` 0 = reject all
+    /// (pool-less nodes), 1 = no filter, 2 = reject exactly the peers whose rack is 9.
+    pub async fn spawn_peers(initial: &[PeerSpec], with_subscriber: bool, filter: u8) -> WorkerRig {
+        Self::spawn_general(peers_of(initial), with_subscriber, filter).await
+    }
+
+    async fn spawn_general(
+        initial_peers: Vec<Peer>,
+        with_subscriber: bool,
+        filter: u8,
+    ) -> WorkerRig {
         let (use_keyspace_sender, use_keyspace_receiver) = tokio::sync::mpsc::channel(32);
         let (connectivity_events_sender, connectivity_events_receiver) =
             tokio::sync::mpsc::unbounded_channel();
@@ -103,11 +197,14 @@ impl WorkerRig {
             connectivity_events_sender,
             metrics: Metrics::new(),
         };
-        let host_filter: Option<Arc<dyn HostFilter>> =
-            (!accept_all).then(|| Arc::new(RejectAll) as Arc<dyn HostFilter>);
+        let host_filter: Option<Arc<dyn HostFilter>> = match filter {
+            0 => Some(Arc::new(RejectAll) as Arc<dyn HostFilter>),
+            2 => Some(Arc::new(RejectRack9) as Arc<dyn HostFilter>),
+            _ => None,
+        };
 
         let metadata = Metadata {
-            peers: peers_for(initial_tag),
+            peers: initial_peers,
             keyspaces: HashMap::new(),
             cluster_name: None,
             client_routes: None,
@@ -223,6 +320,106 @@ impl WorkerRig {
             .modify(|slot| full = slot.is_some())
             .map_err(|_| ())?;
         Ok(full)
+    }
+
+    /// `merge_metadata` of a full fetch whose peer list is `peers`.
+    pub fn merge_metadata_peers(
+        &mut self,
+        peers: &[PeerSpec],
+        with_refresh: bool,
+        routes: Option<&[(u64, u16, u16)]>,
+    ) -> Result<Option<u64>, ()> {
+        let (chan, id, rx) = if with_refresh {
+            let (tx, rx) = oneshot::channel();
+            (Some(tx), Some(self.next_refresh), Some(rx))
+        } else {
+            (None, None, None)
+        };
+        let client_routes = routes.map(|routes| {
+            let mut cr = ClientRoutes::default();
+            cr.extend(routes.iter().map(|&(h, c, p)| route_for(h, c, p)));
+            cr
+        });
+        let metadata = Metadata {
+            peers: peers_of(peers),
+            keyspaces: HashMap::new(),
+            cluster_name: None,
+            client_routes,
+        };
+        self.updates
+            .modify(|slot| MetadataUpdate::merge_metadata(slot, metadata, chan))
+            .map_err(|_| ())?;
+        if let (Some(id), Some(rx)) = (id, rx) {
+            self.next_refresh += 1;
+            self.receivers.push((id, rx));
+        }
+        Ok(id)
+    }
+
+    /// `merge_topology_update` with the peer list `peers` (a partial topology fetch).
+    pub fn merge_topology_peers(&mut self, peers: &[PeerSpec]) -> Result<(), ()> {
+        let peers = peers_of(peers);
+        self.updates
+            .modify(|slot| MetadataUpdate::merge_topology_update(slot, peers))
+            .map_err(|_| ())
+    }
+
+    /// Sends one tablet (as a response's custom payload would) over the tablets channel:
+    /// the cluster worker's OTHER publisher (load - clone - update_tablets - store).
+    pub fn send_tablet(
+        &mut self,
+        keyspace: &str,
+        table: &str,
+        first: i64,
+        last: i64,
+        replicas: &[(u64, u32)],
+    ) -> bool {
+        let replicas: Vec<(Uuid, crate::routing::Shard)> = replicas
+            .iter()
+            .map(|&(h, s)| (Uuid::from_u128(h as u128), s))
+            .collect();
+        let raw = crate::routing::locator::tablets::verif::make_raw_tablet(first, last, &replicas);
+        self._tablets
+            .try_send((TableSpec::owned(keyspace.to_owned(), table.to_owned()), raw))
+            .is_ok()
+    }
+
+    /// Every public view of the published state onto its topology.
+    pub fn published_views(&self) -> PublishedViews {
+        let state = self.state.load_full();
+        let sorted = |mut v: Vec<NodeView>| {
+            v.sort();
+            v.dedup();
+            v
+        };
+        let nodes_info = sorted(state.get_nodes_info().iter().map(view_of).collect());
+        let known_nodes = sorted(state.known_nodes.values().map(view_of).collect());
+        let mut hosts: Vec<Uuid> = state.known_nodes.keys().copied().collect();
+        hosts.extend(state.get_nodes_info().iter().map(|n| n.host_id));
+        hosts.sort_unstable();
+        hosts.dedup();
+        let by_host_id = sorted(
+            hosts
+                .iter()
+                .filter_map(|h| state.get_node_by_host_id(*h))
+                .map(view_of)
+                .collect(),
+        );
+        let ring = sorted(
+            state
+                .replica_locator()
+                .ring()
+                .iter()
+                .map(|(_, n)| view_of(n))
+                .collect(),
+        );
+        PublishedViews {
+            nodes_info,
+            known_nodes,
+            by_host_id,
+            ring,
+            tablet_tables: state.verif_tablet_tables().len(),
+        }
     }
 
     /// Host ids (low 64 bits) of `known_nodes` of the currently published state, sorted.
